@@ -1187,6 +1187,8 @@ pub async fn parallel_sync(
                     counter!("corro.sync.client.member", "id" => actor_id.to_string(), "addr" => addr.to_string()).increment(1);
 
                     let needs = our_sync_state.compute_available_needs(&their_sync_state);
+                    #[cfg(feature = "verif")]
+                    klukai_types::verif::sync_needs_push(agent.actor_id().to_bytes(), actor_id.to_bytes(), &needs);
 
                     debug!(%actor_id, self_actor_id = %agent.actor_id(), "computed needs: {:?}, their_sync_state: {:?}", needs, their_sync_state);
 
@@ -1709,6 +1711,8 @@ pub async fn serve_sync(
                     Ok(Some(msg)) => match msg {
                         SyncMessage::V1(SyncMessageV1::Request(req)) => {
                             trace!(actor_id = %their_actor_id, self_actor_id = %agent.actor_id(), "read req: {req:?}");
+                            #[cfg(feature = "verif")]
+                            klukai_types::verif::sync_req_push(agent.actor_id().to_bytes(), their_actor_id.to_bytes(), &req);
                             count += req
                                 .iter()
                                 .map(|(_, needs)| {
